@@ -1,31 +1,44 @@
 """C13 — NorKyst-800 forcing: right time weights, transparent cache, valid grid metrics.
 
-Correspondence: the real `Buffer` / `OnlineDatabase` miss pattern against the Lean two-frame cache model for
-request histories (forward, repeated, back and forth, across hours and midnight); `interp` weights, hour
-fraction, metric index.  Oracle: served currents = time interpolation of the bracketing hourly fields
-(computed from the file contents with scipy), equal to the stored field at whole hours, independent of the
-request history; finite cell sizes and a depth at every in-grid position incl. the outermost cells;
-`ll2xy` against the file's coordinate arrays; `z2k` monotone and exact at the tabulated depths."""
+Correspondence: the real `Buffer` / `OnlineDatabase` miss pattern (hourly fields and daily datasets) against the
+Lean two-frame cache model for request histories (forward, repeated, back and forth, around hour boundaries,
+across midnight, whole-day jumps); `interp` weights, hour and hour fraction as observed in `get_var`, the metric
+index recovered from a grid with pairwise different cell sizes.  Oracle: served currents = time interpolation of
+the bracketing hourly fields (read back from the files, computed with scipy), equal to the stored field at whole
+hours, independent of the request history; every dataset handed out is the file of the requested day; finite
+cell sizes (which are cell sizes of the file, along the right axis) and the depth of an existing cell at every
+position the grid reports as inside, for scalar-like and vector calls, with candidates on, next to and beyond
+the limits; `ll2xy` against the file's coordinate arrays (scalars and arrays); `z2k` (Grid and Forcing)
+monotone and exact at the tabulated depths."""
 import importlib, os, tempfile, shutil, datetime
 import numpy as np
 from .common import Driver, F, I, L, unF, close, same_bits
 
-RULE = ("synthetic NorKyst-style daily files (2..3 days x 24 h, 6..9 x 6..9 x 4..6, float64 u/v), times at whole hours / any "
-        "second / the integrators' sub-steps tstep in {0, 0.5, 1}, request histories forward / repeated / back-and-forth / across "
-        "midnight / jumps of a whole day forth and back (same clock hour on another day) / "
-        "positions in the grid including the outermost cells. Non-trivial: every request.")
+RULE = ("synthetic NorKyst-style daily files (1..3 days x 24 h, 6..9 x 6..9 x 4..6; u/v float64 or int16 packed with scale_factor and "
+        "masked cells; cell sizes 800x800 / 800x1000 / 500x800; X/Y arrays starting at 0 or at an offset as in the packaged file; "
+        "file pattern with {year}{month}{day} or, for one day, a constant name) and the packaged forcing.nc (00:00-02:00); "
+        "dt in {1, 7, 45, 60, 300, 600, 900, 3600, 5400} s, start at whole hours / odd seconds / 23:30, "
+        "the integrators' sub-steps tstep in {0, 0.5, 1}, request histories forward / repeated / back-and-forth / around an hour "
+        "boundary / across midnight / jumps of a whole day forth and back (same clock hour on another day); 0..6 positions per "
+        "request anywhere in the grid including the outermost cells and on nodes; depths above the surface, at and between the "
+        "tabulated depths, below the last one; grid queries in batches of 0..7 positions on, next to and beyond the limits "
+        "(only those the grid reports as inside are judged); a grid with pairwise different cell sizes. Non-trivial: every request.")
 ASSUMPTIONS = ["pyproj's polar-stereographic transform is trusted (ll2xy is compared with the file's lon/lat arrays)",
-               "scipy map_coordinates(order=1) is used by both the implementation and the oracle"]
+               "scipy map_coordinates(order=1) is used by both the implementation and the oracle",
+               "the stored field is what netCDF4 reads back from the file (unpacked); masked cells (land) count as current 0"]
 SITE = "ladim_plugins/nk800met/gridforce.py"
 PROJ = "+proj=stere +ellps=WGS84 +lat_0=90.0 +lat_ts=60.0 +x_0=3192800 +y_0=1784000 +lon_0=70"
+PACKAGED = None     # path of the packaged forcing.nc, set in run()
 
 
-def write_day(path, day, nx, ny, nz, R, x0=0.0, y0=0.0):
+def write_day(path, day, nx, ny, nz, R, x0=0.0, y0=0.0, sx=800.0, sy=800.0, packed=False):
+    """one daily file.  The projected coordinate of node (i, j) is (sx*i, sy*j); the X/Y *variables* may carry an
+    offset (as in the packaged forcing.nc, whose X starts at 160000 while node 0 projects to 0)."""
     import netCDF4
     from pyproj import CRS, Transformer
     ds = netCDF4.Dataset(path, "w")
     ds.createDimension("time", 24); ds.createDimension("X", nx); ds.createDimension("Y", ny); ds.createDimension("depth", nz)
-    X = x0 + 800.0 * np.arange(nx); Y = y0 + 800.0 * np.arange(ny)
+    X = x0 + sx * np.arange(nx); Y = y0 + sy * np.arange(ny)
     v = ds.createVariable("X", "f8", ("X",)); v[:] = X
     v = ds.createVariable("Y", "f8", ("Y",)); v[:] = Y
     depth = np.array([0.0, 3.0, 10.0, 15.0, 25.0, 50.0, 75.0, 100.0][:nz])
@@ -34,7 +47,7 @@ def write_day(path, day, nx, ny, nz, R, x0=0.0, y0=0.0):
     h = 10.0 + 90.0 * R.rand(ny, nx)
     v = ds.createVariable("h", "f8", ("Y", "X")); v[:] = h
     tr = Transformer.from_crs(CRS.from_proj4(PROJ), CRS.from_epsg(4326), always_xy=True)
-    XX, YY = np.meshgrid(X, Y)
+    XX, YY = np.meshgrid(X - x0, Y - y0)
     lon, lat = tr.transform(XX, YY)
     v = ds.createVariable("lon", "f8", ("Y", "X")); v[:] = lon
     v = ds.createVariable("lat", "f8", ("Y", "X")); v[:] = lat
@@ -42,154 +55,408 @@ def write_day(path, day, nx, ny, nz, R, x0=0.0, y0=0.0):
     t = ds.createVariable("time", "f8", ("time",)); t.units = "seconds since 1970-01-01"
     t[:] = (np.datetime64(day) - epoch).astype("timedelta64[s]").astype(float) + 3600.0 * np.arange(24)
     u = R.uniform(-1, 1, (24, nz, ny, nx)); vv = R.uniform(-1, 1, (24, nz, ny, nx))
-    a = ds.createVariable("u", "f8", ("time", "depth", "Y", "X")); a[:] = u
-    a = ds.createVariable("v", "f8", ("time", "depth", "Y", "X")); a[:] = vv
+    if packed:
+        # like the real NorKyst files: int16, scale_factor, _FillValue, land cells masked
+        for name, arr in (("u", u), ("v", vv)):
+            a = ds.createVariable(name, "i2", ("time", "depth", "Y", "X"), fill_value=np.int16(-32767))
+            a.scale_factor = np.float32(0.001); a.add_offset = np.float32(0.0)
+            a[:] = np.ma.masked_array(arr, mask=R.rand(24, nz, ny, nx) < 0.15)
+    else:
+        a = ds.createVariable("u", "f8", ("time", "depth", "Y", "X")); a[:] = u
+        a = ds.createVariable("v", "f8", ("time", "depth", "Y", "X")); a[:] = vv
+    ds.close()
+    # the stored fields: what a direct read of the file gives
+    ds = netCDF4.Dataset(path)
+    u = np.ma.filled(ds.variables["u"][:], 0); vv = np.ma.filled(ds.variables["v"][:], 0)
     ds.close()
     return dict(u=u, v=vv, h=h, depth=depth, lon=lon, lat=lat, X=X, Y=Y)
 
 
+def read_packaged(path):
+    import netCDF4
+    ds = netCDF4.Dataset(path)
+    g = lambda n: np.ma.filled(ds.variables[n][:], 0)
+    d = dict(u=g("u"), v=g("v"), h=g("h"), depth=g("depth"), lon=g("lon"), lat=g("lat"), X=g("X"), Y=g("Y"))
+    t0 = float(ds.variables["time"][0])
+    ds.close()
+    return d, t0
+
+
+def write_gridonly(path, nx, ny, R):
+    """a file for `Grid` only, every cell size different (x: 700..790, y: 900..990) so that the cell whose size
+    `sample_metric` returns can be identified"""
+    import netCDF4
+    ds = netCDF4.Dataset(path, "w")
+    ds.createDimension("X", nx); ds.createDimension("Y", ny); ds.createDimension("depth", 4)
+    dxs = 700.0 + 10.0 * R.permutation(nx - 1); dys = 900.0 + 10.0 * R.permutation(ny - 1)
+    X = np.concatenate([[0.0], np.cumsum(dxs)]); Y = np.concatenate([[0.0], np.cumsum(dys)])
+    v = ds.createVariable("X", "f8", ("X",)); v[:] = X
+    v = ds.createVariable("Y", "f8", ("Y",)); v[:] = Y
+    v = ds.createVariable("depth", "f8", ("depth",)); v[:] = [0.0, 3.0, 10.0, 15.0]
+    p = ds.createVariable("projection_stere", "i4", ()); p.proj4 = PROJ
+    h = 10.0 + 90.0 * R.rand(ny, nx)
+    v = ds.createVariable("h", "f8", ("Y", "X")); v[:] = h
+    ds.close()
+    return dict(h=h, dxs=np.diff(X), dys=np.diff(Y))
+
+
+def coord_candidate(ctx, n):
+    """a coordinate on, next to or beyond the limits of an axis with n nodes, with the class it belongs to"""
+    cls = ctx.rng.choice(["low_edge", "high_edge", "high_node", "low_node", "interior", "interior",
+                          "below", "just_below", "on_low_limit", "on_high_limit", "just_above", "above", "anywhere", "half"])
+    v = {"low_edge": 0.51, "high_edge": n - 0.51, "high_node": n - 1.0, "low_node": 1.0, "below": -0.6, "just_below": 0.49,
+         "on_low_limit": 0.5, "on_high_limit": n - 0.5, "just_above": n - 0.49, "above": n + 0.3}.get(cls)
+    if cls == "interior": v = ctx.rng.uniform(0.51, n - 0.51)
+    if cls == "anywhere": v = ctx.rng.uniform(-1.0, n + 1.0)
+    if cls == "half": v = ctx.rng.randrange(1, n - 1) + 0.5          # rounds half to even
+    return cls, v
+
+
+def grid_batches(ctx, G, grid, h, nx, ny, r, nbatch, label, judge):
+    """batches of 0..7 candidate positions; `ingrid` is asked for the whole batch, every position it reports as
+    inside is handed (as one vector call) to sample_metric / sample_depth and judged by `judge`."""
+    for _ in range(nbatch):
+        N = ctx.rng.choice([1, 1, 1, 2, 7, 0])
+        cx = [coord_candidate(ctx, nx) for _ in range(N)]; cy = [coord_candidate(ctx, ny) for _ in range(N)]
+        X = np.array([c[1] for c in cx], dtype=float); Y = np.array([c[1] for c in cy], dtype=float)
+        cs = dict(set=r, grid=label, x=X, y=Y, nx=nx, ny=ny)
+        ctx.branch("grid.batch_size=%d" % N)
+        try:
+            inside = np.asarray(grid.ingrid(X, Y))
+        except Exception as e:
+            ctx.case(key=("grid", label, r, tuple(X), tuple(Y)), nontrivial=True)
+            ctx.oracle(False, "C13.ingrid.raises", SITE + "::Grid.ingrid", "raised %r" % (e,), cs); continue
+        if inside.shape != X.shape:
+            ctx.case(key=("grid", label, r, tuple(X), tuple(Y)), nontrivial=True)
+            ctx.oracle(False, "C13.ingrid.shape", SITE + "::Grid.ingrid", "answer of shape %r for %d positions" % (inside.shape, N), cs); continue
+        inside = inside.astype(bool)
+        for (cl, _), (cl2, _), ins in zip(cx, cy, inside):
+            ctx.branch("ingrid.candidate_x=%s.position_reported_%s" % (cl, "inside" if ins else "outside"))
+            if ins and cl in ("low_edge", "high_edge") or ins and cl2 in ("low_edge", "high_edge"):
+                ctx.branch("ingrid_outermost_cell")
+        Xi = X[inside]; Yi = Y[inside]
+        if N and not len(Xi):
+            continue
+        for xx, yy in zip(Xi, Yi):
+            ctx.case(key=("grid", label, r, float(xx), float(yy)), nontrivial=True); ctx.branch("ingrid_position")
+        if not N:
+            ctx.case(key=("grid", label, r, "empty"), nontrivial=True)
+        try:
+            dx, dy = grid.sample_metric(Xi, Yi)
+            dx = np.asarray(dx); dy = np.asarray(dy)
+            if dx.shape != Xi.shape or dy.shape != Xi.shape:
+                ctx.oracle(False, "C13.metric.shape", SITE + "::Grid.sample_metric", "cell sizes of shape %r, %r for %d positions" % (dx.shape, dy.shape, len(Xi)), cs)
+            else:
+                for m in range(len(Xi)):
+                    c1 = dict(cs, index=m)
+                    ok = np.isfinite(dx[m]) and np.isfinite(dy[m]) and dx[m] > 0 and dy[m] > 0
+                    ctx.oracle(bool(ok), "C13.metric.not_finite", SITE + "::Grid.sample_metric", "cell size %r, %r at (%r, %r)" % (dx[m], dy[m], Xi[m], Yi[m]), c1)
+                    judge("metric", Xi[m], Yi[m], (dx[m], dy[m]), c1)
+        except Exception as e:
+            ctx.oracle(False, "C13.metric.raises", SITE + "::Grid.sample_metric", "in-grid positions (%r,%r) on a %dx%d grid raised %r" % (Xi.tolist(), Yi.tolist(), nx, ny, e), cs)
+        try:
+            hh = np.asarray(grid.sample_depth(Xi, Yi))
+            if hh.shape != Xi.shape:
+                ctx.oracle(False, "C13.depth.shape", SITE + "::Grid.sample_depth", "depths of shape %r for %d positions" % (hh.shape, len(Xi)), cs)
+            else:
+                for m in range(len(Xi)):
+                    c1 = dict(cs, index=m)
+                    i = int(round(Xi[m])); j = int(round(Yi[m]))
+                    if 0 <= i < nx and 0 <= j < ny:
+                        ctx.oracle(bool(hh[m] == h[j, i]), "C13.depth.wrong_cell", SITE + "::Grid.sample_depth", "depth %r at (%r, %r), cell (%d, %d) has %r" % (hh[m], Xi[m], Yi[m], i, j, h[j, i]), c1)
+                    else:
+                        # reported inside, but the file has no such cell: whatever was returned is not the depth there
+                        ctx.oracle(False, "C13.ingrid.inside_without_cell", SITE + "::Grid.ingrid",
+                                   "(%r, %r) is reported inside a %dx%d grid; cell (%d, %d) does not exist, depth returned %r" % (Xi[m], Yi[m], nx, ny, i, j, hh[m]), c1)
+        except Exception as e:
+            ctx.oracle(False, "C13.depth.raises", SITE + "::Grid.sample_depth", "in-grid positions (%r,%r) on a %dx%d grid raised %r" % (Xi.tolist(), Yi.tolist(), nx, ny, e), cs)
+
+
+def run_set(ctx, G, drv, pend, r, spec):
+    from scipy.ndimage import map_coordinates
+    data = spec["data"]; paths = spec["paths"]; pattern = spec["pattern"]
+    nx, ny, nz = spec["nx"], spec["ny"], spec["nz"]; day0 = spec["day0"]; H = spec["hours"]
+    sx, sy = spec["sx"], spec["sy"]
+    midnight0 = np.datetime64(str(day0) + "T00:00:00")
+    first = data[str(day0)]
+    # ---- time step and start: all hours needed by any request (incl. tstep = 1 and the following hour) are in the files
+    dts = [d for d in spec["dts"] if ((H - 1) * 3600 - 1) // d - 1 >= 3]
+    dt = ctx.rng.choice(dts)
+    offs = [o for o in [0, 900, 1800, 3600, 5 * 3600 + 300, 4337, 84600] if ((H - 1) * 3600 - 1 - o) // dt - 1 >= 3]
+    base = ctx.rng.choice(offs)
+    start = midnight0 + np.timedelta64(base, "s")
+    ctx.branch("dt=%d" % dt); ctx.branch("start_offset=%d" % base); ctx.branch("storage." + spec["storage"]); ctx.branch("pattern." + spec["pattern_kind"])
+    ctx.branch("spacing=%gx%g" % (sx, sy)); ctx.branch("xy_offset=%s" % (spec["x0"] != 0))
+    conf = dict(start_time=start, dt=dt, gridforce=dict(input_file=pattern))
+
+    # ---- spies (per database object): datasets handed out, hourly fields requested, times and weights of get_var
+    o_dset = G.OnlineDatabase.get_dset; o_var = G.OnlineDatabase._get_var; o_get = G.OnlineDatabase.get_var
+
+    def spy_dset(self, time, _o=o_dset):
+        tt = time.astype(datetime.datetime)
+        try:
+            hit = self.pattern.format(year=tt.year, month=tt.month, day=tt.day) in self._dset_buf
+        except Exception:
+            hit = None
+        ds = _o(self, time)
+        self.__dict__.setdefault("_verif_dsets", []).append((str(time.astype("datetime64[D]")), hit, ds.filepath()))
+        return ds
+
+    def spy_var(self, *args, _o=o_var):
+        name, time = args[-2:]          # (tolerates further leading arguments)
+        key = (name, str(time.astype("datetime64[h]")))
+        hit = key in self._vars_buf
+        self.__dict__.setdefault("_verif_vars", []).append((name, int(time.astype("datetime64[h]").astype("int64")), not hit))
+        return _o(self, *args)
+
+    def spy_get(self, name, time, _o=o_get):
+        res = _o(self, name, time)
+        self.__dict__.setdefault("_verif_gets", []).append((name, time, res[1]))
+        return res
+
+    def field(name, tsec):
+        """hourly field containing time tsec (seconds since day0 00:00)"""
+        hh = int(tsec // 3600)
+        day = day0 + np.timedelta64(hh // 24, "D")
+        return data[str(day)][name][hh % 24]
+
+    G.OnlineDatabase.get_dset = spy_dset; G.OnlineDatabase._get_var = spy_var; G.OnlineDatabase.get_var = spy_get
+    try:
+        grid = G.Grid(conf); forc = G.Forcing(conf, grid)
+        # ---- request histories
+        max_t = ((H - 1) * 3600 - 1 - base) // dt - 1
+        # one history of a randomly chosen ordinary kind, then (same database, the history goes on) with several daily
+        # files the two kinds that need them: around midnight, and the same clock hour on another day
+        kind = ctx.rng.choice(["forward", "repeated", "back_forth", "hour_edge"])
+        edge_hours = [k for k in range(1, H - 1) if k * 3600 > base and (k * 3600 - base) // dt <= max_t]
+        edge = ctx.rng.choice(edge_hours) if edge_hours else None
+        if kind == "hour_edge" and edge is None:
+            kind = "forward"
+        segments = [(kind, ctx.n(25, 80))]
+        if H > 24:
+            more = [("midnight", ctx.n(12, 40)), ("daily", ctx.n(12, 40))]
+            ctx.rng.shuffle(more)
+            segments += more
+        ts = []
+        t = ctx.rng.randrange(0, max(1, max_t // 3))
+        for kind, nreq in segments:
+          for _ in range(nreq):
+            ts.append((t, kind))
+            if kind == "forward": t = min(max_t, t + ctx.rng.choice([1, 1, 2, 7]))
+            elif kind == "repeated": t = t if ctx.rng.random() < 0.5 else min(max_t, t + 1)
+            elif kind == "back_forth": t = min(max_t, max(0, t + ctx.rng.choice([-9, -1, 1, 1, 5])))
+            elif kind == "hour_edge": t = min(max_t, max(0, (edge * 3600 - base) // dt + ctx.rng.randrange(-3, 4)))
+            elif kind == "midnight": t = min(max_t, max(0, (24 * 3600 - base) // dt + ctx.rng.randrange(-3, 4)))
+            else:       # the same clock hour on another day (a one-day model step, daily sampling, a jump back)
+                day_steps = 24 * 3600 // dt
+                cand = [t2 for t2 in (t + day_steps, t - day_steps, t + day_steps + 1, t - day_steps - 1, t + 1) if 0 <= t2 <= max_t]
+                t = ctx.rng.choice(cand) if cand else t
+        kinds_run = "+".join(k for k, _ in segments)
+        zs = [0.0, 3.0, 7.0, 60.0, 500.0, -2.0, float(first["depth"][-1])] + [float(0.5 * (first["depth"][m] + first["depth"][m + 1])) for m in range(nz - 1)]
+
+        def pos(n):
+            c = ctx.rng.choice(["mid", "mid", "mid", "any", "low_edge", "low_node", "high_node", "high_edge", "node"])
+            ctx.branch("velocity.pos_" + c)
+            if c == "mid": return ctx.rng.uniform(0.6, n - 1.6)
+            if c == "any": return ctx.rng.uniform(0.51, n - 0.51)
+            if c == "node": return float(ctx.rng.randrange(1, n - 1))
+            return {"low_edge": 0.51, "low_node": 1.0, "high_node": n - 1.0, "high_edge": n - 0.51}[c]
+
+        for t, kind in ts:
+            forc.update(t)
+            tstep = ctx.rng.choice([0, 0.5, 1])
+            npts = ctx.rng.choice([3, 3, 3, 1, 6, 0])
+            x = np.array([pos(nx) for _ in range(npts)], dtype=float); y = np.array([pos(ny) for _ in range(npts)], dtype=float)
+            z = np.array([ctx.rng.choice(zs) for _ in range(npts)], dtype=float)
+            cs = dict(set=r, start=str(start), dt=dt, t=int(t), tstep=tstep, history=kind, x=x, y=y, z=z, storage=spec["storage"], pattern=spec["pattern_kind"])
+            ctx.case(key=(r, int(t), tstep, float(x[0]) if npts else None), nontrivial=True, sample=cs if len(pend) < 2 else None)
+            ctx.branch("history." + kind); ctx.branch("tstep=%s" % tstep); ctx.branch("velocity.npts=%d" % npts)
+            n_gets = len(forc.dbase.__dict__.get("_verif_gets", [])); n_vars = len(forc.dbase.__dict__.get("_verif_vars", []))
+            try:
+                u, v = forc.velocity(x, y, z, tstep)
+            except Exception as e:
+                ctx.oracle(False, "C13.velocity.raises", SITE + "::Forcing.velocity", "raised %r" % (e,), cs); continue
+            # the time of the request is start + dt*(t + tstep); numpy's timedelta arithmetic keeps whole seconds only
+            # (np.timedelta64(7, 's') * 0.5 is 3 s), which matters for an odd dt at the half step
+            tsec = base + dt * t + int(dt * tstep)
+            texact = base + dt * t + dt * tstep
+            q = (tsec % 3600) / 3600.0
+            qx = (texact % 3600) / 3600.0
+            subsecond = texact != tsec
+            if subsecond: ctx.branch("time.half_step_of_odd_dt")
+            if q == 0: ctx.branch("time.whole_hour")
+            k = np.interp(z, first["depth"], np.arange(nz))
+            for name, got in (("u", u), ("v", v)):
+                got = np.asarray(got)
+                # packed files are served as float32 and map_coordinates answers in the type of its input; the blend is
+                # done in double precision (the weight is a float64), float32 -> float64 is exact
+                a1 = map_coordinates(field(name, tsec), (k, y, x), order=1, prefilter=False).astype(np.float64)
+                a2 = map_coordinates(field(name, tsec + 3600), (k, y, x), order=1, prefilter=False).astype(np.float64)
+                want = a1 * (1 - qx) + a2 * qx
+                ok = got.shape == want.shape and np.allclose(got, want, rtol=1e-9, atol=1e-12)
+                # the known finding F-C13a explains exactly one wrong answer: the two *right* hourly fields
+                # blended with mirrored weights.  Anything else (a field of another hour, day or file) is a
+                # different defect and is reported under its own predicate.
+                mirrored = a1 * qx + a2 * (1 - qx)
+                if ok or (got.shape == want.shape and np.allclose(got, mirrored, rtol=1e-9, atol=1e-12)):
+                    pred = "C13.interp.whole_hour" if qx == 0 else "C13.interp.time_weights"
+                elif subsecond and got.shape == want.shape and (np.allclose(got, a1 * (1 - q) + a2 * q, rtol=1e-9, atol=1e-12)
+                                                                 or np.allclose(got, a1 * q + a2 * (1 - q), rtol=1e-9, atol=1e-12)):
+                    # the right fields, blended for the time with the half second of the sub-step dropped
+                    pred = "C13.time.substep_truncated"
+                else:
+                    pred = "C13.interp.wrong_fields"
+                ctx.oracle(ok, pred, SITE + "::interp",
+                           "%s at %g s into the hour (q=%.6f): served %r, time interpolation of the bracketing hourly fields %r" % (name, texact % 3600, qx, got.tolist(), want.tolist()), cs)
+                # history independence: a fresh database gives the same answer
+                fresh = G.Forcing(conf, grid); fresh.update(t)
+                u2, v2 = fresh.velocity(x, y, z, tstep)
+                ctx.oracle(np.array_equal(got, u2 if name == "u" else v2), "C13.cache.not_transparent", SITE + "::Buffer",
+                           "result depends on the request history", cs)
+                if drv.available:
+                    for i in range(npts):
+                        # weight of the exact sub-step time (tt_us / hour fraction: checked against the model below)
+                        pend.append(("interp", (drv.ask("nk.interp", "0", F(a1[i]), F(a2[i]), F(qx)), drv.ask("nk.interp", "1", F(a1[i]), F(a2[i]), F(qx))), got[i], cs))
+            # exact time of the sub-step in microseconds (tstep in {0, 0.5, 1} = num/2)
+            num2 = int(round(tstep * 2))
+            start_s = int(start.astype("datetime64[s]").astype("int64"))
+            tt_us = (start_s + dt * t) * 1000000 + dt * num2 * 500000
+            tt = tt_us // 1000000
+            if drv.available:
+                pend.append(("hour", drv.ask("nk.hour", I(tt)), (tt // 3600, tt % 3600), cs))
+                pend.append(("subtime", drv.ask("nk.subtime", I(start_s), I(dt), I(t), I(num2), I(2)), tt_us, cs))
+            # the same against what the implementation itself computed: time and weight in get_var, hour in _get_var
+            gets = forc.dbase.__dict__.get("_verif_gets", [])[n_gets:]; vars_ = forc.dbase.__dict__.get("_verif_vars", [])[n_vars:]
+            for (gname, gtime, gw) in gets:
+                ti = int(gtime.astype("datetime64[us]").astype("int64"))
+                ctx.eq("nk.time_of_step(get_var)", ti, tt_us, cs)
+                hours = [hh for (vn, hh, _) in vars_ if vn == gname]
+                if drv.available and len(hours) == 2:
+                    pend.append(("hour_impl", drv.ask("nk.hour_us", I(ti)), (hours[0], hours[1], float(gw)), cs))
+        # ---- the cache: hourly fields and datasets of this Forcing's database
+        reads = forc.dbase.__dict__.get("_verif_vars", [])
+        dsets = forc.dbase.__dict__.get("_verif_dsets", []) + grid.dbase.__dict__.get("_verif_dsets", [])
+        for dstr, hit, fp in dsets:
+            # fields come from the file of the requested day
+            ctx.oracle(dstr in paths and os.path.abspath(fp) == os.path.abspath(paths[dstr]), "C13.dset.wrong_file", SITE + "::OnlineDatabase.get_dset",
+                       "dataset handed out for day %s is %r, the file of that day is %r" % (dstr, fp, paths.get(dstr)), dict(set=r, history=kinds_run, day=dstr))
+        if drv.available and reads:
+            pend.append(("serve", drv.ask("nk.serve", I(len(reads)), " ".join("%s %d" % (n, h) for n, h, _ in reads)), [m for _, _, m in reads], dict(set=r, history=kinds_run)))
+        fd = forc.dbase.__dict__.get("_verif_dsets", [])
+        if drv.available and fd and spec["pattern_kind"] == "dated":
+            # the dataset buffer is the same two-frame cache, keyed by file with the day as frame (one file per day)
+            dn = [int(np.datetime64(d).astype("datetime64[D]").astype("int64")) for d, _, _ in fd]
+            pend.append(("serve_dset", drv.ask("nk.serve", I(len(fd)), " ".join("dset %d" % d for d in dn)), [not hit for _, hit, _ in fd], dict(set=r, history=kinds_run, buffer="datasets")))
+    finally:
+        G.OnlineDatabase.get_dset = o_dset; G.OnlineDatabase._get_var = o_var; G.OnlineDatabase.get_var = o_get
+
+    # ---- grid: metrics and depth at every position reported inside, incl. outermost cells, limits, vector calls
+    def judge(what, xx, yy, val, c1):
+        if what == "metric":
+            # the grid is regular: the cell sizes are the spacings of the file's X and Y arrays (exact: multiples of 100 m)
+            ctx.oracle(bool(val[0] == sx and val[1] == sy), "C13.metric.wrong_size", SITE + "::Grid.sample_metric",
+                       "cell size %r x %r at (%r, %r); the file's cells are %r x %r" % (val[0], val[1], xx, yy, sx, sy), c1)
+            if drv.available:
+                pend.append(("midx", drv.ask("nk.midx", I(nx - 2), I(int(np.round(xx)))), min(max(int(np.round(xx)), 0), nx - 2), c1))
+    grid_batches(ctx, G, grid, first["h"], nx, ny, r, ctx.n(40, 300), "regular", judge)
+
+    # ---- ll2xy against the file's own coordinate arrays: scalars and arrays
+    for _ in range(10):
+        j = ctx.rng.randrange(ny); i = ctx.rng.randrange(nx)
+        ctx.case(key=("ll2xy", r, j, i), nontrivial=True); ctx.branch("ll2xy")
+        try:
+            xg, yg = grid.ll2xy(first["lon"][j, i], first["lat"][j, i])
+        except Exception as e:
+            ctx.oracle(False, "C13.ll2xy.raises", SITE + "::Grid.ll2xy", "lon/lat of node (%d,%d) raised %r" % (i, j, e), dict(set=r, i=i, j=j)); continue
+        ctx.oracle(abs(float(xg) - i) < 1e-3 and abs(float(yg) - j) < 1e-3, "C13.ll2xy.mismatch", SITE + "::Grid.ll2xy",
+                   "lon/lat of node (%d,%d) maps to (%r,%r)" % (i, j, float(xg), float(yg)), dict(set=r, i=i, j=j))
+    for shape in ((5,), (2, 3), (0,)):
+        n = int(np.prod(shape))
+        jj = np.array([ctx.rng.randrange(ny) for _ in range(n)], dtype=int).reshape(shape); ii = np.array([ctx.rng.randrange(nx) for _ in range(n)], dtype=int).reshape(shape)
+        ctx.case(key=("ll2xy_array", r, shape, tuple(jj.ravel()), tuple(ii.ravel())), nontrivial=True); ctx.branch("ll2xy.array%r" % (shape,))
+        cs = dict(set=r, i=ii, j=jj)
+        try:
+            xg, yg = grid.ll2xy(first["lon"][jj, ii], first["lat"][jj, ii])
+            xg = np.asarray(xg); yg = np.asarray(yg)
+            # same tolerance as for scalars: 1e-3 of a cell (< 1 m), pyproj's round trip is good to ~1e-9
+            ok = xg.shape == shape and yg.shape == shape and bool(np.all(np.abs(xg - ii) < 1e-3)) and bool(np.all(np.abs(yg - jj) < 1e-3))
+            ctx.oracle(ok, "C13.ll2xy.mismatch", SITE + "::Grid.ll2xy", "lon/lat of nodes i=%r j=%r map to x=%r y=%r" % (ii.tolist(), jj.tolist(), xg.tolist(), yg.tolist()), cs)
+        except Exception as e:
+            ctx.oracle(False, "C13.ll2xy.raises", SITE + "::Grid.ll2xy", "arrays of shape %r raised %r" % (shape, e), cs)
+
+    # ---- z2k: the grid's and the forcing's (the one velocity uses)
+    for who, obj in (("Grid", grid), ("Forcing", forc)):
+        zz = np.sort(np.array([ctx.rng.uniform(-5, 120) for _ in range(20)] + first["depth"].tolist()))
+        kk = obj.z2k(zz)
+        ctx.case(key=("z2k", who, r), nontrivial=True)
+        ctx.oracle(bool(np.all(np.diff(kk) >= 0)), "C13.z2k.not_monotone", SITE + "::%s.z2k" % who, "level index not monotone in depth", dict(set=r, who=who))
+        ctx.oracle(np.array_equal(obj.z2k(first["depth"]), np.arange(nz)), "C13.z2k.not_exact_at_knots", SITE + "::%s.z2k" % who, "not exact at the tabulated depths", dict(set=r, who=who))
+
+
+def run_irregular(ctx, G, drv, pend, r, tmp):
+    """a grid whose cells all have different sizes: which cell's size does sample_metric return?"""
+    R = np.random.RandomState(ctx.sub_seed())
+    nx = ctx.rng.randrange(5, 10); ny = ctx.rng.randrange(5, 10)
+    path = os.path.join(tmp, "gridonly%d.nc" % r)
+    g = write_gridonly(path, nx, ny, R)
+    grid = G.Grid(dict(start_time=np.datetime64("2020-03-01T00:00:00"), dt=60, gridforce=dict(input_file=path)))
+
+    def judge(what, xx, yy, val, c1):
+        if what == "metric":
+            ix = np.nonzero(g["dxs"] == val[0])[0]; iy = np.nonzero(g["dys"] == val[1])[0]
+            ok = len(ix) == 1 and len(iy) == 1
+            ctx.oracle(ok, "C13.metric.not_a_cell_size", SITE + "::Grid.sample_metric",
+                       "cell size %r x %r at (%r, %r) is not the size of any cell of the file (x sizes %r, y sizes %r)" % (val[0], val[1], xx, yy, g["dxs"].tolist(), g["dys"].tolist()), c1)
+            if ok and drv.available:
+                pend.append(("midx_impl", drv.ask("nk.midx", I(nx - 2), I(int(np.round(xx)))), int(ix[0]), dict(c1, axis="x")))
+                pend.append(("midx_impl", drv.ask("nk.midx", I(ny - 2), I(int(np.round(yy)))), int(iy[0]), dict(c1, axis="y")))
+    grid_batches(ctx, G, grid, g["h"], nx, ny, r, ctx.n(25, 150), "irregular", judge)
+
+
 def run(ctx):
     G = importlib.import_module("ladim_plugins.nk800met.gridforce")
-    from scipy.ndimage import map_coordinates
     drv = Driver()
     if getattr(ctx, "widened", False):
         drv.available = False
     pend = []
     tmp = tempfile.mkdtemp(prefix="verif_c13_")
+    packaged = os.path.join(os.path.dirname(os.path.abspath(G.__file__)), "forcing.nc")
     try:
-        for r in range(ctx.n(3, 15)):
+        nsets = ctx.n(3, 15)
+        for r in range(nsets + 1):
+            if r == nsets:
+                # ---- the packaged sample file (int16 packed, masked cells, X/Y starting at 160000, 3 hourly records),
+                #      used the way ladim.yaml uses it: a constant file name
+                if not os.path.exists(packaged):
+                    ctx.note("packaged forcing.nc not found"); continue
+                d, t0 = read_packaged(packaged)
+                day0 = (np.datetime64("1970-01-01T00:00:00") + np.timedelta64(int(t0), "s")).astype("datetime64[D]")
+                spec = dict(data={str(day0): d}, paths={str(day0): packaged}, pattern=packaged, pattern_kind="constant", storage="packaged_file",
+                            nx=d["h"].shape[1], ny=d["h"].shape[0], nz=len(d["depth"]), day0=day0, hours=d["u"].shape[0],
+                            sx=float(d["X"][1] - d["X"][0]), sy=float(d["Y"][1] - d["Y"][0]), x0=float(d["X"][0]), dts=[1, 7, 45, 60, 300, 600, 900])
+                run_set(ctx, G, drv, pend, r, spec)
+                continue
             R = np.random.RandomState(ctx.sub_seed())
             nx = ctx.rng.randrange(6, 10); ny = ctx.rng.randrange(6, 10); nz = ctx.rng.randrange(4, 7)
-            ndays = ctx.rng.choice([2, 3])
+            ndays = ctx.rng.choice([2, 3, 2, 3, 1]) if r else ctx.rng.choice([2, 3])     # at least one set with several daily files
             day0 = np.datetime64("2020-02-27") + np.timedelta64(ctx.rng.randrange(0, 3), "D")
-            data = {}
+            sx, sy = ctx.rng.choice([(800.0, 800.0), (800.0, 1000.0), (500.0, 800.0)])
+            x0, y0 = ctx.rng.choice([(0.0, 0.0), (160000.0, 240000.0)])
+            packed = ctx.rng.random() < 0.5
+            constant = ndays == 1 and ctx.rng.random() < 0.5
+            data = {}; paths = {}
             sub = os.path.join(tmp, "set%d" % r); os.makedirs(sub)
             for d in range(ndays):
                 day = day0 + np.timedelta64(d, "D")
                 dd = day.astype(datetime.datetime)
-                data[str(day)] = write_day(os.path.join(sub, "nk_%04d%02d%02d.nc" % (dd.year, dd.month, dd.day)), day, nx, ny, nz, R)
-            pattern = os.path.join(sub, "nk_{year:04}{month:02}{day:02}.nc")
-            dt = ctx.rng.choice([60, 300, 600, 900])
-            start = np.datetime64(str(day0) + "T00:00:00") + np.timedelta64(ctx.rng.choice([0, 900, 1800, 3600, 5 * 3600 + 300]), "s")
-            conf = dict(start_time=start, dt=dt, gridforce=dict(input_file=pattern))
-            grid = G.Grid(conf); forc = G.Forcing(conf, grid)
-            first = data[str(day0)]
-
-            def field(name, tsec):
-                """hourly field containing time tsec (seconds since day0 00:00)"""
-                hh = int(tsec // 3600)
-                day = day0 + np.timedelta64(hh // 24, "D")
-                return data[str(day)][name][hh % 24]
-
-            # ---- request histories
-            last_h = ndays * 24 - 2
-            base = int((start - np.datetime64(str(day0) + "T00:00:00")).astype("timedelta64[s]").astype(int))
-            max_t = (last_h * 3600 - base) // dt
-            kind = ctx.rng.choice(["forward", "repeated", "back_forth", "midnight", "daily"])
-            ts = []
-            t = ctx.rng.randrange(0, max(1, max_t // 3))
-            for _ in range(ctx.n(25, 80)):
-                ts.append(t)
-                if kind == "forward": t = min(max_t, t + ctx.rng.choice([1, 1, 2, 7]))
-                elif kind == "repeated": t = t if ctx.rng.random() < 0.5 else min(max_t, t + 1)
-                elif kind == "back_forth": t = min(max_t, max(0, t + ctx.rng.choice([-9, -1, 1, 1, 5])))
-                elif kind == "midnight": t = min(max_t, max(0, (24 * 3600 - base) // dt + ctx.rng.randrange(-3, 4)))
-                else:       # the same clock hour on another day (a one-day model step, daily sampling, a jump back)
-                    day_steps = 24 * 3600 // dt
-                    cand = [t2 for t2 in (t + day_steps, t - day_steps, t + day_steps + 1, t - day_steps - 1, t + 1) if 0 <= t2 <= max_t]
-                    t = ctx.rng.choice(cand) if cand else t
-            reads = []
-            orig = G.OnlineDatabase._get_var
-            def spy(self, name, time, _o=orig, _r=reads):
-                key = (name, str(time.astype("datetime64[h]")))
-                hit = key in self._vars_buf
-                _r.append((name, int(time.astype("datetime64[h]").astype("int64")), not hit))
-                return _o(self, name, time)
-            G.OnlineDatabase._get_var = spy
-            try:
-                for t in ts:
-                    forc.update(t)
-                    tstep = ctx.rng.choice([0, 0.5, 1])
-                    npts = 3
-                    x = np.array([ctx.rng.uniform(0.6, nx - 1.6) for _ in range(npts)]); y = np.array([ctx.rng.uniform(0.6, ny - 1.6) for _ in range(npts)])
-                    z = np.array([ctx.rng.choice([0.0, 3.0, 7.0, 60.0, 500.0]) for _ in range(npts)])
-                    cs = dict(set=r, start=str(start), dt=dt, t=int(t), tstep=tstep, history=kind, x=x, y=y, z=z)
-                    ctx.case(key=(r, int(t), tstep, float(x[0])), nontrivial=True, sample=cs if len(pend) < 2 else None)
-                    ctx.branch("history." + kind); ctx.branch("tstep=%s" % tstep)
-                    try:
-                        u, v = forc.velocity(x, y, z, tstep)
-                    except Exception as e:
-                        ctx.oracle(False, "C13.velocity.raises", SITE + "::Forcing.velocity", "raised %r" % (e,), cs); continue
-                    tsec = base + dt * t + int(dt * tstep)
-                    q = (tsec % 3600) / 3600.0
-                    k = np.interp(z, first["depth"], np.arange(nz))
-                    for name, got in (("u", u), ("v", v)):
-                        a1 = map_coordinates(field(name, tsec), (k, y, x), order=1, prefilter=False)
-                        a2 = map_coordinates(field(name, tsec + 3600), (k, y, x), order=1, prefilter=False)
-                        want = a1 * (1 - q) + a2 * q
-                        ok = np.allclose(got, want, rtol=1e-9, atol=1e-12)
-                        # the known finding F-C13a explains exactly one wrong answer: the two *right* hourly fields
-                        # blended with mirrored weights.  Anything else (a field of another hour, day or file) is a
-                        # different defect and is reported under its own predicate.
-                        mirrored = a1 * q + a2 * (1 - q)
-                        if ok or np.allclose(got, mirrored, rtol=1e-9, atol=1e-12):
-                            pred = "C13.interp.whole_hour" if q == 0 else "C13.interp.time_weights"
-                        else:
-                            pred = "C13.interp.wrong_fields"
-                        ctx.oracle(ok, pred, SITE + "::interp",
-                                   "%s at %d s into the hour (q=%.4f): served %r, time interpolation of the bracketing hourly fields %r" % (name, tsec % 3600, q, got.tolist(), want.tolist()), cs)
-                        # history independence: a fresh database gives the same answer
-                        fresh = G.Forcing(conf, grid); fresh.update(t)
-                        G.OnlineDatabase._get_var = orig
-                        u2, v2 = fresh.velocity(x, y, z, tstep)
-                        G.OnlineDatabase._get_var = spy
-                        ctx.oracle(np.array_equal(got, u2 if name == "u" else v2), "C13.cache.not_transparent", SITE + "::Buffer",
-                                   "result depends on the request history", cs)
-                        if drv.available:
-                            for i in range(npts):
-                                pend.append(("interp", (drv.ask("nk.interp", "0", F(a1[i]), F(a2[i]), F(q)), drv.ask("nk.interp", "1", F(a1[i]), F(a2[i]), F(q))), got[i], cs))
-                    if drv.available:
-                        tt = int((start.astype("datetime64[s]").astype("int64")) + dt * t + int(dt * tstep))
-                        pend.append(("hour", drv.ask("nk.hour", I(tt)), (tt // 3600, tt % 3600), cs))
-            finally:
-                G.OnlineDatabase._get_var = orig
-            if drv.available and reads:
-                pend.append(("serve", drv.ask("nk.serve", I(len(reads)), " ".join("%s %d" % (n, h) for n, h, _ in reads)), [m for _, _, m in reads], dict(set=r, history=kind)))
-            # ---- grid: metrics and depth at every in-grid position incl. outermost cells
-            for _ in range(ctx.n(40, 300)):
-                xx = ctx.rng.choice([0.51, nx - 0.51, nx - 1.0, 1.0, ctx.rng.uniform(0.51, nx - 0.51)])
-                yy = ctx.rng.choice([0.51, ny - 0.51, ny - 1.0, 1.0, ctx.rng.uniform(0.51, ny - 0.51)])
-                X1 = np.array([xx]); Y1 = np.array([yy])
-                if not grid.ingrid(X1, Y1)[0]:
-                    continue
-                cs = dict(set=r, x=xx, y=yy, nx=nx, ny=ny)
-                ctx.case(key=("grid", r, xx, yy), nontrivial=True); ctx.branch("ingrid_position")
-                try:
-                    dx, dy = grid.sample_metric(X1, Y1)
-                    ok = np.isfinite(dx[0]) and np.isfinite(dy[0]) and dx[0] > 0 and dy[0] > 0
-                    ctx.oracle(ok, "C13.metric.not_finite", SITE + "::Grid.sample_metric", "cell size %r, %r" % (dx, dy), cs)
-                except Exception as e:
-                    ctx.oracle(False, "C13.metric.raises", SITE + "::Grid.sample_metric", "in-grid position (%r,%r) on a %dx%d grid raised %r" % (xx, yy, nx, ny, e), cs)
-                try:
-                    hh = grid.sample_depth(X1, Y1)
-                    ctx.oracle(hh[0] == first["h"][int(round(yy)), int(round(xx))], "C13.depth.wrong_cell", SITE + "::Grid.sample_depth", "depth %r" % hh, cs)
-                except Exception as e:
-                    ctx.oracle(False, "C13.depth.raises", SITE + "::Grid.sample_depth", "raised %r" % (e,), cs)
-                if drv.available:
-                    pend.append(("midx", drv.ask("nk.midx", I(nx - 2), I(int(np.round(xx)))), min(max(int(np.round(xx)), 0), nx - 2), cs))
-            # ---- ll2xy against the file's own coordinate arrays
-            for _ in range(10):
-                j = ctx.rng.randrange(ny); i = ctx.rng.randrange(nx)
-                xg, yg = grid.ll2xy(first["lon"][j, i], first["lat"][j, i])
-                ctx.case(key=("ll2xy", r, j, i), nontrivial=True); ctx.branch("ll2xy")
-                ctx.oracle(abs(float(xg) - i) < 1e-3 and abs(float(yg) - j) < 1e-3, "C13.ll2xy.mismatch", SITE + "::Grid.ll2xy",
-                           "lon/lat of node (%d,%d) maps to (%r,%r)" % (i, j, float(xg), float(yg)), dict(set=r, i=i, j=j))
-            # ---- z2k
-            zz = np.sort(np.array([ctx.rng.uniform(-5, 120) for _ in range(20)] + first["depth"].tolist()))
-            kk = grid.z2k(zz)
-            ctx.case(key=("z2k", r), nontrivial=True)
-            ctx.oracle(bool(np.all(np.diff(kk) >= 0)), "C13.z2k.not_monotone", SITE + "::Grid.z2k", "level index not monotone in depth", dict(set=r))
-            ctx.oracle(np.array_equal(grid.z2k(first["depth"]), np.arange(nz)), "C13.z2k.not_exact_at_knots", SITE + "::Grid.z2k", "not exact at the tabulated depths", dict(set=r))
+                p = os.path.join(sub, "nk.nc" if constant else "nk_%04d%02d%02d.nc" % (dd.year, dd.month, dd.day))
+                data[str(day)] = write_day(p, day, nx, ny, nz, R, x0=x0, y0=y0, sx=sx, sy=sy, packed=packed)
+                paths[str(day)] = p
+            pattern = os.path.join(sub, "nk.nc") if constant else os.path.join(sub, "nk_{year:04}{month:02}{day:02}.nc")
+            spec = dict(data=data, paths=paths, pattern=pattern, pattern_kind="constant" if constant else "dated", storage="int16_packed_masked" if packed else "float64",
+                        nx=nx, ny=ny, nz=nz, day0=day0, hours=24 * ndays, sx=sx, sy=sy, x0=x0, dts=[60, 300, 600, 900, 1, 7, 45, 3600, 5400])
+            run_set(ctx, G, drv, pend, r, spec)
+            run_irregular(ctx, G, drv, pend, r, tmp)
     finally:
         shutil.rmtree(tmp, ignore_errors=True)
     if drv.available:
@@ -206,12 +473,20 @@ def run(ctx):
             elif kind == "hour":
                 t = rep[j][1]
                 ctx.eq("nk.hour", impl, (int(t[0]), int(t[1])), cs)
+            elif kind == "hour_impl":
+                t = rep[j][1]
+                # hour of the lower field, the upper field is the next hour, weight = seconds into the hour / 3600 (exact in floats)
+                ctx.eq("nk.hour(get_var)", impl, (int(t[0]), int(t[0]) + 1, int(t[1]) / 3600000000.0), cs)
+            elif kind == "subtime":
+                ctx.eq("nk.subtime", impl, int(rep[j][1][0]), cs)
             elif kind == "midx":
                 ctx.eq("nk.metric_index", impl, int(rep[j][1][0]), cs)
-            elif kind == "serve":
+            elif kind == "midx_impl":
+                ctx.eq("nk.metric_index(sample_metric)", impl, int(rep[j][1][0]), cs)
+            elif kind in ("serve", "serve_dset"):
                 t = rep[j][1][1:]
                 ctx.eq("nk.buffer_transparent", True, all("!" not in x for x in t), cs)
-                ctx.eq("nk.buffer_misses", impl, [x.startswith("1") for x in t], cs)
+                ctx.eq("nk.buffer_misses" if kind == "serve" else "nk.dataset_buffer_misses", impl, [x.startswith("1") for x in t], cs)
         variant = 1 if votes[1] > 0 and votes[0] == 0 else 0
         ctx.note("time weights of interp matched by the code: %s (votes %r)" % (["backward (v1*q + v2*(1-q))", "forward"][variant], votes))
         for impl, m0, m1, cs in res:
